@@ -74,3 +74,84 @@ pub proof fn lemma_ip_final(d: CompiledDfa, tmap: Seq<TerminalID>, p: PartV)
         if g == 0 { assert(!es[s1].0); }
     }
 }
+
+// ---------------------------------------------------------------- the transition map minimize builds, and signatures
+pub type TMapV = Map<StateID, BTreeMap<CharClassID, Vec<StateID>>>;
+/// state s can move under class cc to target t (as recorded in the transition map)
+pub open spec fn tm_edge(tm: TMapV, s: StateID, cc: CharClassID, t: StateID) -> bool {
+    tm.contains_key(s) && tm[s]@.contains_key(cc) && tm[s]@[cc]@.contains(t)
+}
+/// the map records exactly the transitions of the automaton, one key per state
+pub open spec fn tm_ok(d: CompiledDfa, tm: TMapV) -> bool {
+    &&& forall|s: StateID| #[trigger] tm.contains_key(s) <==> s.0 < d.states@.len()
+    &&& forall|s: StateID, cc: CharClassID, t: StateID| #[trigger] tm_edge(tm, s, cc, t) <==> (s.0 < d.states@.len() && d.states@[s.0 as int].transitions@.contains((cc, StateSetID(t.0))))
+}
+/// state s can move under class cc into group h (over the transition map)
+pub open spec fn sig_tm(tm: TMapV, p: PartV, s: StateID, cc: CharClassID, h: int) -> bool {
+    exists|t: StateID| #[trigger] tm_edge(tm, s, cc, t) && in_grp(p, h, t.0 as int)
+}
+pub proof fn lemma_sig_tm(d: CompiledDfa, tm: TMapV, p: PartV, s: StateID, cc: CharClassID, h: int)
+    requires tm_ok(d, tm)
+    ensures sig_tm(tm, p, s, cc, h) <==> sig(d, p, s.0 as int, cc, h)
+{
+    if sig_tm(tm, p, s, cc, h) {
+        let t = choose|t: StateID| #[trigger] tm_edge(tm, s, cc, t) && in_grp(p, h, t.0 as int);
+        assert(in_grp(p, h, t.0 as int) && d.states@[s.0 as int].transitions@.contains((cc, StateSetID(t.0 as int as u32))));
+    }
+    if sig(d, p, s.0 as int, cc, h) {
+        let t = choose|t: int| #[trigger] in_grp(p, h, t) && 0 <= s.0 < d.states@.len() && d.states@[s.0 as int].transitions@.contains((cc, StateSetID(t as u32)));
+        assert(tm_edge(tm, s, cc, StateID(t as u32)));
+    }
+}
+/// the signature vector of a state: lists (cc, g) iff the state can move under cc into group g
+pub open spec fn sigvec_ok(tm: TMapV, p: PartV, s: StateID, v: Seq<(CharClassID, StateGroupID)>) -> bool {
+    &&& forall|i: int| 0 <= i < v.len() ==> (#[trigger] v[i]).1.0 < p.len()
+    &&& forall|cc: CharClassID, g: StateGroupID| #[trigger] v.contains((cc, g)) <==> (g.0 < p.len() && sig_tm(tm, p, s, cc, g.0 as int))
+}
+
+pub broadcast axiom fn axiom_ccid_cmp()
+    ensures #[trigger] vstd::std_specs::btree::key_obeys_cmp_spec::<CharClassID>();
+/// what a BTreeMap iterator yields: exactly the key/value pairs of the map
+pub open spec fn btree_rem_ok<'a, K, V>(m: Map<K, V>, rem: Seq<(&'a K, &'a V)>) -> bool {
+    &&& forall|i: int| 0 <= i < rem.len() ==> m.contains_key(*(#[trigger] rem[i]).0) && m[*rem[i].0] == *rem[i].1
+    &&& forall|k: K| #[trigger] m.contains_key(k) ==> exists|i: int| 0 <= i < rem.len() && *(#[trigger] rem[i]).0 == k
+}
+pub open spec fn tgt_upto(tv: Seq<StateID>, p: PartV, k: int, h: int) -> bool {
+    exists|kk: int| 0 <= kk < k && kk < tv.len() && #[trigger] in_grp(p, h, tv[kk].0 as int)
+}
+pub open spec fn sig_at<'a>(rem: Seq<(&'a CharClassID, &'a Vec<StateID>)>, p: PartV, i: int, cc: CharClassID, h: int) -> bool {
+    0 <= i < rem.len() && *rem[i].0 == cc && tgt_upto(rem[i].1@, p, rem[i].1@.len() as int, h)
+}
+pub open spec fn sig_upto<'a>(rem: Seq<(&'a CharClassID, &'a Vec<StateID>)>, p: PartV, n: int, cc: CharClassID, h: int) -> bool {
+    exists|i: int| 0 <= i < n && #[trigger] sig_at(rem, p, i, cc, h)
+}
+pub proof fn lemma_grp_unique(p: PartV, n: int, g: int, h: int, s: int)
+    requires part_ok(p, n), in_grp(p, g, s), in_grp(p, h, s)
+    ensures g == h
+{
+}
+pub proof fn lemma_sig_upto_all<'a>(tm: TMapV, p: PartV, s: StateID, rem: Seq<(&'a CharClassID, &'a Vec<StateID>)>, cc: CharClassID, h: int)
+    requires tm.contains_key(s), btree_rem_ok(tm[s]@, rem)
+    ensures sig_upto(rem, p, rem.len() as int, cc, h) <==> sig_tm(tm, p, s, cc, h)
+{
+    let tos = tm[s]@;
+    if sig_upto(rem, p, rem.len() as int, cc, h) {
+        let i = choose|i: int| 0 <= i < rem.len() && #[trigger] sig_at(rem, p, i, cc, h);
+        let tv = rem[i].1@;
+        let kk = choose|kk: int| 0 <= kk < tv.len() && kk < tv.len() && #[trigger] in_grp(p, h, tv[kk].0 as int);
+        assert(tos.contains_key(cc) && tos[cc]@ == tv);
+        assert(tv.contains(tv[kk]));
+        assert(tm_edge(tm, s, cc, tv[kk]));
+    }
+    if sig_tm(tm, p, s, cc, h) {
+        let t = choose|t: StateID| #[trigger] tm_edge(tm, s, cc, t) && in_grp(p, h, t.0 as int);
+        assert(tos.contains_key(cc));
+        let i = choose|i: int| 0 <= i < rem.len() && *(#[trigger] rem[i]).0 == cc;
+        assert(tos[cc] == *rem[i].1);
+        let tv = rem[i].1@;
+        let kk = choose|kk: int| 0 <= kk < tv.len() && tv[kk] == t;
+        assert(in_grp(p, h, tv[kk].0 as int));
+        assert(tgt_upto(tv, p, tv.len() as int, h));
+        assert(sig_at(rem, p, i, cc, h));
+    }
+}
